@@ -224,7 +224,7 @@ def run(chk):
     tlc.write_mc(d, 'MCB', 'Buffer', defs, cfg)
     res = tlc.run(d, 'MCB', timeout=6000)
     chk.add_tlc('model', res, 'Buffer: %d sequences x %d operations, one path per (state%s, op)'
-                % (len(seqs), len(allops), '' if quick else ', prev op'))
+                % (len(seqs), len(allops), '' if quick else ', kind of previous op'))
     if res.violated:
         raise tlc.MachineryError('Buffer model violates %s' % res.violated)
     recs = [r for r in res.records if 'h' in r]
